@@ -4,18 +4,22 @@ import (
 	"fmt"
 	"strings"
 
+	"golang.org/x/net/idna"
+
 	"verif/harness/internal/core"
 )
 
 var baseNames = []string{"a.test", "b.test", "secret.test", "x.a.test", "y.x.a.test", "c.example", "localhost", ""}
 
 var cfgOddNames = []string{
+	"\u00e9.test", "*.\u00e9.test", "xn--9ca.test",
 	"\u017f.test", "k.test", "\u212a.TEST", "\u00c9.test", "\u00e9.test", "*.\u017f.test", "s.test",
 	"A.Test", "SECRET.TEST", "*.a.test", "*.test", "*.*.test", "*", "*.x.a.test", "x.*.test", "*a.test",
 	"*.", ".test", "a..test", "*.A.TEST", "*.*", "*.*.a.test", "*..test", "a.test.", "*.example",
 }
 
 var helloOddNames = []string{
+	"xn--9ca.test", "XN--9CA.TEST", "xn--9ba.test", "x.xn--9ca.test",
 	"\u017fecret.test", "a.te\u017ft", "\u017fECRET.TEST", "\u212a.test", "\u00c9.test", "\u00e9.TEST", "x.\u017f.test",
 	"A.TEST", "a.Test", "Secret.Test", "q.a.test", "Q.A.TEST", "z.y.x.a.test", ".a.test", "a..test", "x..test",
 	"test", "a.test.", "[secret.test]", "*.a.test", "*", ".", "..", "c.EXAMPLE", "other.invalid",
@@ -148,6 +152,13 @@ func fmtPolicies(pols []policy) string {
 					sb.WriteByte(',')
 				}
 				sb.WriteString(core.Hex(n))
+				if !isASCII(n) {
+					a, err := idna.ToASCII(n)
+					if err != nil || a == "" {
+						a = "idna-error" // never matches what Run observes: the line answers idna-mismatch
+					}
+					sb.WriteString("=" + core.Hex(a))
+				}
 			}
 		}
 		sb.WriteByte('/')
@@ -216,7 +227,14 @@ func (p *prop) genPol(rng *core.Rand, tier string) string {
 	}
 	var listed []string
 	for _, pl := range pols {
-		listed = append(listed, pl.names...)
+		for _, n := range pl.names {
+			if !isASCII(n) && rng.Chance(1, 2) {
+				if a, err := idna.ToASCII(n); err == nil { // what a client sends for an IDN
+					n = a
+				}
+			}
+			listed = append(listed, n)
+		}
 	}
 	nh := 1 + rng.Intn(6)
 	var hs []string
@@ -476,6 +494,20 @@ func (p *prop) genE2E(rng *core.Rand) string {
 			host = rng.Pick([]string{".secret.test", "x.secret.test", "q.secret.test:8443"})
 		}
 	}
+	if k == 4 {
+		sni = rng.Pick([]string{"xn--9ca.test", "XN--9CA.test", "public.test", "other.test", "xn--9ca.tes", "e.test", "\u00e9.test"})
+		switch rng.Intn(4) {
+		case 0:
+			host = sni
+		case 1:
+			host = mixCase(rng, sni) + ":443"
+		case 2:
+			host = "xn--9ca.test"
+		}
+		if !isASCII(host) {
+			host = "xn--9ca.test"
+		}
+	}
 	hs, _ := p.handshake(k, sni)
 	if hs != "f" && hs != "p0" && hs != "p1" {
 		hs = "f" // Run prints what it observes; the disagreement is then visible
@@ -487,7 +519,7 @@ var malformed = []string{
 	"cf", "cf n", "cf n 2", "cf n 2/", "cf n 4/q", "cf n 2/q;2/r", "cf z 2/q", "cf n 2/Z", "cf n 2/q;", "cf n 2/q 1", "cf n 2/~q",
 	"ca", "ca 1", "ca 00000000", "ca 0100000", "ca 2000000", "ca 1300000", "ca 1030000", "ca 1000006", "ca 100000x", "ca 1000000 1",
 	"e2e", "e2e 0 f 2d 2d", "e2e 0 p1 7075626c69632e74657374", "e2e 1 p2 7075626c69632e74657374 2d", "e2e 0 p1 3132372e302e302e31 2d", "e2e 2 p1 612e 2d",
-	"e2e 1 p1 c3a8 2d", "e2e 0 f zz 2d", "e2e 0 f 7075626c69632e74657374 2d x", "e2e 4 f 7075626c69632e74657374 2d", "e2e f 7075626c69632e74657374 2d", "e2e 00 f 7075626c69632e74657374 2d",
+	"e2e 1 p1 c3a8 2d", "e2e 0 f zz 2d", "e2e 0 f 7075626c69632e74657374 2d x", "e2e 5 f 7075626c69632e74657374 2d", "e2e f 7075626c69632e74657374 2d", "e2e 00 f 7075626c69632e74657374 2d",
 	"", "pol", "enf", "xyz 1 2 3", "pol 0 . .", "pol 2 . 2d/0/6/0000000000000000", "pol 0 -/~/~", "pol 0 -/~ 2d/0/6/0000000000000000",
 	"pol 0 x/~/~ 2d/0/6/0000000000000000", "pol 0 dd/~/~ 2d/0/6/0000000000000000", "pol 0 -/zz/~ 2d/0/6/0000000000000000",
 	"pol 0 -/7b/~ 2d/0/6/0000000000000000", "pol 0 -/c3a8/~ 2d/0/6/0000000000000000", "pol 0 -/~/ba 2d/0/6/0000000000000000",
